@@ -46,6 +46,20 @@ class Refusal(Exception):
     pass
 
 
+def neighbour_ties(sc, train_idx, query_idx, k=2, gamma=0.7):
+    """Rows of the query whose k-th and (k+1)-th nearest training samples are (nearly) equally similar.
+
+    With n_neighbors the Parzen window classifier keeps the k most similar training samples; when the boundary
+    is tied, which of them is kept depends on the last bits of the kernel values (a pre-computed kernel block
+    and a freshly computed one differ there) -- such rows cannot be judged."""
+    if sc["clf"] != "pwc_nn" or len(train_idx) <= k:
+        return np.zeros(len(query_idx), dtype=bool)
+    X = np.array(sc["X"], dtype=float)
+    d2 = ((X[query_idx][:, None, :] - X[train_idx][None, :, :]) ** 2).sum(axis=2)
+    K = np.sort(np.exp(-gamma * d2), axis=1)[:, ::-1]
+    return np.abs(K[:, k - 1] - K[:, k]) <= 1e-9 * np.maximum(1.0, np.abs(K[:, k - 1]))
+
+
 class RefModel:
     """Specified behaviour of IndexClassifierWrapper (no kernel tricks, no index bookkeeping)."""
 
@@ -358,7 +372,7 @@ class C19Check(Check):
                 if judge:
                     ctx.violate("prediction-raises", subj, f"op {t} {name}({op['idx']}) raised {type(e).__name__}: {str(e)[:100]}", dict(cond, exc=type(e).__name__))
                 return obs
-            obs.append((t, name, val))
+            obs.append((t, name, val, neighbour_ties(sc, model.cur[-1][1]["idx"] if model.cur else [], op["idx"])))
             if judge:
                 try:
                     ref = model.reference_clf()
@@ -367,7 +381,14 @@ class C19Check(Check):
                     continue
                 ctx.probe("prediction_compared")
                 ctx.log.add(name, val)
-                if not self._same_pred(name, val, rv, ref, sc, op):
+                amb = neighbour_ties(sc, model.cur[-1][1]["idx"] if model.cur else [], op["idx"])
+                if amb.any():
+                    ctx.probe("neighbour_tie_rows_skipped")
+                    val_j, rv_j = np.asarray(val)[~amb], np.asarray(rv)[~amb]
+                    op_j = dict(op, idx=[i for i, a in zip(op["idx"], amb) if not a])
+                else:
+                    val_j, rv_j, op_j = val, rv, op
+                if len(op_j["idx"]) and not self._same_pred(name, val_j, rv_j, ref, sc, op_j):
                     ctx.violate(
                         "differs-from-retrained",
                         subj,
@@ -411,11 +432,13 @@ class C19Check(Check):
             except Exception:
                 obs2 = None
             if obs2 is not None:
-                d1 = {(t, n): v for t, n, v in obs}
-                d2 = {(t, n): v for t, n, v in obs2}
+                d1 = {(t, n): (v, amb) for t, n, v, amb in obs}
+                d2 = {(t, n): (v, amb) for t, n, v, amb in obs2}
                 for key in sorted(set(d1) & set(d2)):
                     ctx.probe("speedup_twin_compared")
-                    a, b = d1[key], d2[key]
+                    (a, amb), (b, _) = d1[key], d2[key]
+                    if amb.any() and np.asarray(a).shape[0] == len(amb):
+                        a, b = np.asarray(a)[~amb], np.asarray(b)[~amb]
                     ok = close(a, b, rtol=1e-9, atol=1e-12) if key[1] != "predict" else True
                     if not ok:
                         ctx.violate("speedup-changes-prediction", "IndexClassifierWrapper", f"op {key[0]}: {key[1]} differs with use_speed_up on/off: {np.asarray(a).ravel()[:4]} vs {np.asarray(b).ravel()[:4]}", {"clf": sc["clf"]})
